@@ -1,13 +1,15 @@
 """C04 -- hash-consing: one object per structure, faithful accessors, faithful copies.
 
-K: random construction histories over two fresh Environments are executed on the real
+K: random construction histories over three fresh Environments are executed on the real
    FormulaManager and, as one `mgr ...` request, on the Lean model (lean/Drivers/C04.lean);
    compared: node id of every returned object (hence the partition into identity classes),
    error class of every rejected call, the complete node table of both managers read back
    through the public accessors (node_type, args, payload accessors, bv_width, symbol
    name/type, constant_value, array_value_index_type, quantifier_vars, function_name),
    array_value_get answers, _next_free_id, _fresh_guess, the symbol table and the type
-   manager tables of both environments (incl. after normalize).
+   manager tables of all environments (incl. after normalize).  normalize goes from any
+   environment into any other (several sources interleaved on one target, whose normalizer
+   keeps its memo) and from an environment into itself (own formulas, after foreign ones).
 S: independent of the Lean model.  A second, purely functional "blueprint" algebra (class
    Blue) computes from the documentation of each constructor the structure the call must
    return (or the error class).  Checked on every history: the object returned has exactly
@@ -15,7 +17,8 @@ S: independent of the Lean model.  A second, purely functional "blueprint" algeb
    never have the same structure; one object never answers two different blueprints;
    array_value_get = dict lookup with default; a normalised copy has the source structure,
    shares no FNode with the source environment, consists of nodes of the target manager,
-   and its types are interned in the target TypeManager.
+   and its types are interned in the target TypeManager; normalize of a manager's own
+   formula returns that very object.
 """
 import json
 import random
@@ -27,17 +30,17 @@ from fractions import Fraction
 import common
 
 LEAN_MODULES = ["PySMT.Props.C04"]
-RULE = ("a history is a random sequence (quick: 4..400 ops) of FormulaManager constructor calls over two "
+RULE = ("a history is a random sequence (quick: 4..400 ops) of FormulaManager constructor calls over one to three "
         "Environments: typed pools guarantee well-sorted arguments; 30% of the ops re-build an earlier "
         "result along another route (other spelling of constants, GE for LE, list/var-args, replay of the "
         "whole DAG in another order); all 66 node types, every numeric spelling (int/bool/float/Fraction/"
-        "pair/str), normalize in both directions.  A history is non-trivial when at least one call "
+        "pair/str), normalize between all pairs of environments incl. an environment and itself, interleaved.  A history is non-trivial when at least one call "
         "returned an already existing object and at least one normalisation fired; the key is the "
         "multiset of op names plus the identity partition.")
 ASSUMPTIONS = [
     "CPython dict/hash semantics, id() and FNode.__eq__/__hash__ (fnode.py:81-99) are trusted; the model abstracts "
     "object identity to the node id and id() to an injective address function supplied per history",
-    "formulas are never mixed between environments except through normalize",
+    "formulas are never mixed between environments except through normalize; three environments per history",
     "ill-sorted constructions (rejected by the type checker after the node was inserted) are not generated: C03/C15",
     "float('inf'), float('nan'), gmpy2 numbers, tuples that are not pairs of ints, BV strings with '_', sign or blanks, "
     "Pow with a constant base and a negative or non-integer exponent, a custom sort named 'Array' are not generated",
